@@ -117,6 +117,19 @@ Fixpoint lab_ok_in (strict : bool) (size : nat -> nat) (lab shp : list nat) : bo
   | _, _ => false
   end.
 
+(* inside ONE operand a repeated label ("...ii") must bind axes of exactly the same size *)
+Fixpoint lab_first (lab shp : list nat) (l : nat) : nat :=
+  match lab, shp with
+  | x :: lab', d :: shp' => if x =? l then d else lab_first lab' shp' l
+  | _, _ => 0
+  end.
+Fixpoint lab_self_ok_from (lab0 shp0 lab shp : list nat) : bool :=
+  match lab, shp with
+  | x :: lab', d :: shp' => (d =? lab_first lab0 shp0 x) && lab_self_ok_from lab0 shp0 lab' shp'
+  | _, _ => true
+  end.
+Definition lab_self_ok (lab shp : list nat) : bool := lab_self_ok_from lab shp lab shp.
+
 Definition upd (e : nat -> nat) (l v : nat) : nat -> nat := fun x => if x =? l then v else e x.
 Fixpoint bind (lab idx : list nat) (e : nat -> nat) : nat -> nat :=
   match lab, idx with
@@ -160,7 +173,7 @@ Definition einsum (strict : bool) (ops : list (list nat * arr)) (lo : list nat) 
   if forallb (fun la => length (fst la) <=? length (shape (snd la))) ops then
     let cores := map (fun la => (fst la, core_of (fst la) (snd la))) ops in
     let size := lab_size cores in
-    if forallb (fun c => lab_ok_in strict size (fst c) (snd c)) cores then
+    if forallb (fun c => lab_ok_in strict size (fst c) (snd c) && lab_self_ok (fst c) (snd c)) cores then
       match np_bcast_all (map (fun la => batch_of (fst la) (snd la)) ops) with
       | Some bs =>
           Some (mkArr (bs ++ map size lo)
